@@ -945,6 +945,14 @@ impl Sim {
                         }
                         self.ps.mark_archival(peer);
                     }
+                    4 => {
+                        // a Kademlia provider of the archival topic is marked before it is dialled
+                        // (and may never be): archival, possibly without any connection
+                        self.ps.mark_archival(peer);
+                        if !f.connected {
+                            ctx.probe("archival_mark_on_unconnected_peer");
+                        }
+                    }
                     _ => {
                         for i in 0..self.ps.model.len() {
                             self.ps.disconnect(i);
@@ -1631,6 +1639,9 @@ async fn scenario(ctx: Arc<RunCtx>, mode: Mode) {
                     if ctx.coin("peer.archival", 400) {
                         ps.mark_archival(i);
                     }
+                } else if ctx.coin("peer.archival_unconnected", 350) {
+                    // discovered as an archival provider, never dialled
+                    ps.mark_archival(i);
                 }
                 if ctx.coin("peer.trusted", 300) {
                     ps.set_trusted(i, true);
@@ -1657,7 +1668,7 @@ async fn scenario(ctx: Arc<RunCtx>, mode: Mode) {
                 ctx.begin_span("flip");
                 let at = ctx.range("flip.at_ms", 0, cfg.faults_end_ms - 1);
                 let peer = ctx.choose("flip.peer", n_peers.max(1) as u32) as usize;
-                let kind = ctx.weighted("flip.kind", &[5, 1, 3, 1]) as u32;
+                let kind = ctx.weighted("flip.kind", &[5, 1, 3, 1, 2]) as u32;
                 ctx.end_span();
                 timeline.push((at, Action::Flip { peer, kind }));
             }
